@@ -48,7 +48,7 @@ PROPS["C14"] = {
             "a twin limiter with a healthy logger gets the same requests and must go on answering alike); non-trivial = requests of different sources interleaved with a rejection / at least one eviction / two sources in flight at once / a request lost to a broken log sink; distinct = run digest",
     "technique": "deterministic simulation: projection (non-interference) differential against per-source twin limiters in lock-step on the simulated clock and scheduler; eviction model for over-capacity workloads; porcupine partitioned by source for fine-mode connection-limiter histories",
     "level_text": "seeded search over interleaved multi-source histories, capacities and schedules of the real TokenLimiter/ConnLimiter; sampled, not exhaustive",
-    "level_note": "trusted: simrt, frozen clock, rapid, porcupine; the over-capacity workload keeps creation order equal to last-use order and accesses of different sources at least one second apart, so that 'nearest to expiry' is unambiguous at the ttl map's one-second granularity",
+    "level_note": "trusted: simrt, frozen clock, rapid, porcupine; the over-capacity workload keeps creation order equal to last-use order and accesses of different sources at least one second apart, so that 'nearest to expiry' is unambiguous at the ttl map's one-second granularity; the ranked regime assumes only that an entry's lifetime lies between one period and a hundred periods plus a hundred seconds (its period classes 1 h / 1000 h / 200 000 h are then ordered whatever the formula)",
     "assumptions": ["only forward clock steps", "over-capacity scenario spans < 5 simulated minutes with periods >= 1 min (no real expiry interferes)"],
 }
 
@@ -193,7 +193,7 @@ PROPS["C08"] = {
             "scripted byte-level backend on the simulated transport; oracle = byte-level comparison of what the backend received and what the client received; non-trivial = at least two client headers; distinct = hash of the bytes at the backend and the response head at the client",
     "technique": "deterministic simulation restricted to its transport dimension: seeded inputs and configurations observed as bytes on a simulated backend connection (peer-address forms and TLS flag that real sockets here cannot produce); this property has no schedule or fault dimension",
     "level_text": "seeded input/configuration exploration over the simulated transport; sampled, not exhaustive",
-    "level_note": NET_NOTE + "; 'TE: trailers', upgrade requests and an empty query ('/p?') are not generated (Go's ReverseProxy treats them specially by design); a forwarding header that the client itself names in Connection may or may not arrive",
+    "level_note": NET_NOTE + "; 'TE: trailers' and an empty query ('/p?') are not generated (Go's ReverseProxy treats them specially by design); protocol-upgrade handshakes are generated and declined by the backend, with 'Connection: Upgrade' and 'Upgrade' allowed through as the reverse proxy passes them on by design; a forwarding header that the client itself names in Connection may or may not arrive",
     "assumptions": ["HTTP/1.1 client", "TLS is represented by the request's TLS field as set by a TLS-terminating listener"],
 }
 
